@@ -74,6 +74,9 @@ Proof. intros Hi. apply HoldO. eapply ent_In. apply ent_at. exact Hi. Qed.
 Lemma lt_range s md p : LT s md p -> 0 <= nu p <= n.
 Proof. destruct p as [j|g]; intros H; cbn [nu]; [destruct (lt_at _ _ _ H); lia|destruct (lt_gap _ _ _ H); lia]. Qed.
 
+Lemma lt_rho_lo s md p : LT s md p -> -1 <= rho p.
+Proof. destruct p as [j|g]; intros H; cbn [rho]; [destruct (lt_at _ _ _ H)|destruct (lt_gap _ _ _ H)]; lia. Qed.
+
 (* ---------------------------------------------------------------- the forward scans *)
 (* stops on the first visible entry of O at or after index j, or at the end *)
 Definition scan_postLT (j : Z) (st : pstate S) : Prop :=
@@ -268,5 +271,276 @@ Proof.
         -- left. destruct Hm as [Hm|Hm]; [lia|discriminate].
       * (* showing nothing while entries of O lie ahead: excluded *)
         exfalso. specialize (Hnone eq_refl). injection Hnone as Hg'. lia.
+Qed.
+
+(* ---------------------------------------------------------------- prev: the outer loop *)
+Hypothesis Hfuel : (Z.of_nat fuel > (2 * n + 2) * (Z.of_nat Bnd + 2)).
+
+Definition prev_invLT (cur : S) (md : bool) (p : lpos) (sk : option key) : Prop :=
+  (c_kv c cur = None /\ sk = None) \/
+  (exists j, p = LAt j /\ sk = Some (K j) /\ forall i, 0 <= i < j -> K i = K j -> V (at_ O i) = false) \/
+  (exists g x, p = LGap g /\ md = false /\ c_kv c cur = Some x /\ sk = Some (ek x)).
+
+(* stops on the last visible entry of O before index j, or at the head *)
+Definition prev_postLT (j : Z) (st : pstate S) : Prop :=
+  p_fail st = None /\ exists md p, LT (p_cur st) md p /\
+   ((p = LGap 0 /\ c_kv c (p_cur st) = None /\ p_skip st = None /\ rank V O 0 = rank V O j) \/
+    (exists p', p = LAt p' /\ V (at_ O p') = true /\ p_skip st = Some (K p') /\ rank V O (p' + 1) = rank V O j)).
+
+Definition Wz (cur : S) (md : bool) (p : lpos) : Z :=
+  qz p * (Z.of_nat Bnd + 2) + (if md then Z.of_nat Bnd + 1 else Z.of_nat (behind cur)).
+
+Lemma rank_invis a b : 0 <= a -> a <= b -> b <= n -> (forall i, a <= i < b -> V (at_ O i) = false) -> rank V O a = rank V O b.
+Proof. intros. symmetry. now apply (rank_invisible 0%nat t O). Qed.
+
+Lemma fuel_inner : (fuel > Bnd + 1)%nat.
+Proof. pose proof (len_nonneg O). nia. Qed.
+
+Lemma prev_loopLT : forall m cur md p sk, LT cur md p -> prev_invLT cur md p sk -> Z.of_nat m > Wz cur md p ->
+  prev_postLT (nu p) (p_prev_loop c fuel t m (mkP cur sk None)).
+Proof.
+  pose proof fuel_inner as Hfi.
+  induction m as [|m IH]; intros cur md p sk HL Hinv Hm.
+  { exfalso. unfold Wz in Hm. pose proof (lt_range _ _ _ HL). assert (0 <= qz p) by (destruct p; cbn [qz nu] in *; lia).
+    destruct md; nia. }
+  cbn [p_prev_loop p_cur p_skip p_fail].
+  destruct (lt_prev _ _ _ HL) as [p1 [HL1 [Hp [Hn1 _]]]].
+  destruct (prv_qz _ _ Hp) as [Hq1 [Hrho1 Hq1s]].
+  pose proof (lt_range _ _ _ HL) as Hnup.
+  destruct (lt_behind _ _ _ HL) as [Hb0 Hb1].
+  (* after the skip loop: at p2, everything of O strictly between is invisible *)
+  assert (exists cur2 p2, LT cur2 false p2 /\ qz p2 <= qz p1 /\ rho p2 <= rho p1 /\
+            (forall i, rho p2 < i < nu p -> V (at_ O i) = false) /\
+            ((c_kv c cur2 = None /\ p2 = LGap 0 /\
+              (prev_skip_loop c fuel (c_prev c cur) sk = Ret (cur2, None) \/ prev_skip_loop c fuel (c_prev c cur) sk = Go (cur2, None))) \/
+             (exists e, c_kv c cur2 = Some e /\ (behind cur2 <= behind (c_prev c cur))%nat /\
+                        prev_skip_loop c fuel (c_prev c cur) sk = Go (cur2, None)))) as Hskip.
+  { destruct sk as [s|].
+    - assert ((fuel > behind (c_prev c cur))%nat \/ c_kv c (c_prev c cur) = None) as Hf1.
+      { destruct (lt_behind _ _ _ HL1) as [Hb _]. left. lia. }
+      destruct (prev_skipLT fuel _ _ s HL1 Hn1 Hf1) as [cur2 [p2 [HL2 [Hr [Hq [Hall Hres]]]]]].
+      exists cur2, p2. split; [exact HL2|]. split; [exact Hq|]. split; [exact Hr|]. split.
+      + intros i Hi. assert (K i = s) as Hki by (apply Hall; lia).
+        destruct Hinv as [[_ E]|[[j [-> [E Hearlier]]]|[g [x [-> [Emd [Ekx E]]]]]]]; [discriminate| |].
+        * injection E as ->. cbn [nu] in *. apply Hearlier; [pose proof (lt_rho_lo _ _ _ HL2); lia|exact Hki].
+        * injection E as ->. exfalso. cbn [nu] in *. destruct (lt_gap _ _ _ HL) as [Hg Hx]. rewrite Ekx in Hx. destruct Hx as [Hlate Hbound].
+          assert (0 <= i < g) by (pose proof (lt_rho_lo _ _ _ HL2); lia).
+          specialize (Hbound Emd ltac:(lia)).
+          assert (ele (at_ O i) (at_ O (g - 1))) as Hle by (apply (sorted_ent_le O HsO i (g - 1)); try (apply ent_at); lia).
+          assert (elt (at_ O i) x) as Hlt by eorder.
+          assert (ets x < T i)%N by (apply (elt_same_key (at_ O i) x); [exact Hki|exact Hlt]).
+          pose proof (at_old i ltac:(lia)). lia.
+      + destruct Hres as [[A [B C]]|[e [A [_ [B C]]]]]; [left; auto|right; exists e; auto].
+    - exists (c_prev c cur), p1. split; [exact HL1|]. split; [lia|]. split; [lia|]. split; [intros i Hi; lia|].
+      rewrite prev_skip_none. destruct (c_kv c (c_prev c cur)) as [e|] eqn:Ekv; [right; exists e; auto|left; auto]. }
+  destruct Hskip as [cur2 [p2 [HL2 [Hq2 [Hr2 [Hinvis Hres]]]]]].
+  pose proof (lt_rho_lo _ _ _ HL2) as Hrho2lo.
+  destruct Hres as [[Hkv2 [-> Hres]]|[e [Hkv2 [Hb2 Hres]]]].
+  - (* ran off the beginning *)
+    assert (prev_postLT (nu p) (mkP cur2 None None)) as Hdone.
+    { split; [reflexivity|]. exists false, (LGap 0). cbn [p_cur p_skip]. split; [exact HL2|]. left. repeat split; auto.
+      apply rank_invis; try lia. intros i Hi. apply Hinvis. cbn [rho]. lia. }
+    destruct Hres as [ -> | -> ]; [exact Hdone|]. rewrite Hkv2. exact Hdone.
+  - rewrite Hres, Hkv2. destruct p2 as [j2|g2].
+    + (* an entry of O: find the newest version of its key that is not newer than t *)
+      destruct (lt_at _ _ _ HL2) as [Hj2 Hk2]. rewrite Hk2 in Hkv2. injection Hkv2 as <-. cbn [rho qz] in *.
+      assert (N.ltb t (T j2) = false) as -> by (apply N.ltb_ge; now apply at_old).
+      assert ((fuel > behind cur2)%nat) as Hfb by (destruct (lt_behind _ _ _ HL2); lia).
+      destruct (prev_backLT fuel cur2 j2 HL2 Hfb) as [cur3 [p3 [E3 [HL3 [Hr3 [Hall3 [Hend3 Hn3]]]]]]]. rewrite E3.
+      set (mm := rho p3 + 1). assert (0 <= mm <= j2) as Hmm by (unfold mm; lia).
+      assert (K mm = K j2) as Hkmm by (apply Hall3; unfold mm; lia).
+      assert (exists cur5 md5, prev_fwd_loop c t fuel (K j2) (if has_key c cur3 then cur3 else c_next c cur3) = Some cur5 /\ LT cur5 md5 (LAt mm)) as [cur5 [md5 [E5 HL5]]].
+      { unfold has_key. destruct (c_kv c cur3) as [e3|] eqn:Ekv3.
+        - apply (prev_fwdLT fuel cur3 false p3 mm (K j2) HL3); [destruct (nu_rho p3); unfold mm; lia|exact Hkmm| | |intros H; rewrite Ekv3 in H; discriminate].
+          + intros i Hi. destruct (nu_rho p3). assert (i = rho p3) as -> by (unfold mm in Hi; lia).
+            pose proof (lt_range _ _ _ HL3). destruct Hend3 as [E|E]; [lia|exact E].
+          + left. destruct (lt_ahead _ _ _ HL3). lia.
+        - specialize (Hn3 eq_refl). subst p3. cbn [rho] in *.
+          destruct (lt_next _ _ _ HL3) as [p4 [HL4 [Hn4 Hend4]]]. cbn [nxt] in Hn4.
+          assert (nu p4 = 0) as Hnu4 by (destruct Hn4 as [-> | ->]; reflexivity).
+          apply (prev_fwdLT fuel _ true p4 mm (K j2) HL4); [unfold mm; lia|exact Hkmm|intros i Hi; unfold mm in Hi; lia| |exact Hend4].
+          left. destruct (lt_ahead _ _ _ HL4). lia. }
+      rewrite E5. destruct (lt_at _ _ _ HL5) as [_ Hk5]. rewrite Hk5.
+      replace (N.leb (T mm) t) with true by (symmetry; apply N.leb_le; apply at_old; lia).
+      destruct (keqb_spec (K mm) (K j2)) as [_|]; [|congruence]. cbn [andb negb].
+      assert (head t O mm) as Hhead.
+      { split; [apply at_old; lia|]. destruct (Z.eq_dec mm 0) as [|Hne0]; [now left|right]. left.
+        replace (mm - 1) with (rho p3) by (unfold mm; lia). destruct Hend3 as [E|E]; [unfold mm in Hne0; lia|congruence]. }
+      assert (forall i, mm < i <= j2 -> V (at_ O i) = false) as Hmid.
+      { intros i Hi. destruct (V (at_ O i)) eqn:Hv; [exfalso|reflexivity].
+        apply (visible_head 0%nat t O HsO i ltac:(lia)) in Hv. destruct Hv as [_ [->|[Hne|Hnew]]]; [lia| |].
+        - apply Hne. rewrite (Hall3 (i - 1)) by (unfold mm in *; lia). rewrite (Hall3 i) by (unfold mm in *; lia). reflexivity.
+        - pose proof (at_old (i - 1) ltac:(lia)). lia. }
+      assert (forall i, mm < i < nu p -> V (at_ O i) = false) as Hbetween.
+      { intros i Hi. destruct (Z_le_gt_dec i j2); [apply Hmid; lia|apply Hinvis; lia]. }
+      unfold set_skip_key. rewrite Hk5.
+      destruct (ev (at_ O mm)) as [v|] eqn:Hev.
+      * (* a value: the answer *)
+        split; [reflexivity|]. exists md5, (LAt mm). cbn [p_cur p_skip]. split; [exact HL5|]. right. exists mm.
+        split; [reflexivity|]. split; [apply (visible_iff 0%nat t O HsO mm ltac:(lia)); split; [exact Hhead|congruence]|].
+        split; [reflexivity|]. apply rank_invis; try lia. intros i Hi. apply Hbetween. lia.
+      * (* a tombstone: skip the key, continue *)
+        assert (prev_postLT (nu (LAt mm)) (p_prev_loop c fuel t m (mkP cur5 (Some (K mm)) None))) as Hrec.
+        { apply (IH cur5 md5 (LAt mm)); [exact HL5| |].
+          - right. left. exists mm. split; [reflexivity|]. split; [reflexivity|].
+            intros i Hi Hk. apply (head_earlier_invisible 0%nat t O HsO mm i); auto; lia.
+          - unfold Wz in *. cbn [qz].
+            assert (2 * mm + 1 <= qz p - 1).
+            { destruct p as [j|g]; cbn [qz] in *; [specialize (Hq1s j eq_refl); lia|lia]. }
+            assert (0 <= Z.of_nat (behind cur5) <= Z.of_nat Bnd + 1) by (destruct (lt_behind _ _ _ HL5); lia).
+            destruct md; destruct md5; nia. }
+        cbn [nu] in Hrec. destruct Hrec as [Hf [md6 [p6 [HL6 Hend6]]]]. split; [exact Hf|]. exists md6, p6. split; [exact HL6|].
+        assert (rank V O mm = rank V O (nu p)) as Hrk.
+        { apply rank_invis; try lia. intros i Hi. destruct (Z.eq_dec i mm) as [->|]; [|apply Hbetween; lia].
+          destruct (V (at_ O mm)) eqn:Hv; [exfalso|reflexivity]. apply (visible_iff 0%nat t O HsO mm ltac:(lia)) in Hv. tauto. }
+        destruct Hend6 as [[A [B [C D]]]|[p' [A [B [C D]]]]]; [left; repeat split; auto; congruence|right; exists p'; repeat split; auto; congruence].
+    + (* a late entry: skip its key, continue *)
+      destruct (lt_gap _ _ _ HL2) as [Hg2 Hx]. rewrite Hkv2 in Hx. destruct Hx as [Hlate _]. cbn [rho qz] in *.
+      assert (N.ltb t (ets e) = true) as -> by (apply N.ltb_lt; exact Hlate).
+      unfold set_skip_key. rewrite Hkv2.
+      assert (prev_postLT (nu (LGap g2)) (p_prev_loop c fuel t m (mkP cur2 (Some (ek e)) None))) as Hrec.
+      { apply (IH cur2 false (LGap g2)); [exact HL2| |].
+        - right. right. exists g2, e. auto.
+        - unfold Wz in *. cbn [qz].
+          assert (Z.of_nat (behind cur2) <= Z.of_nat (behind (c_prev c cur))) by lia.
+          assert (Z.of_nat (behind (c_prev c cur)) < Z.of_nat (behind cur)).
+          { destruct Hb1 as [Hbn|Hbn]; [|lia]. exfalso. specialize (Hn1 Hbn). subst p1.
+            (* nothing was shown after the first step back: the skip loop stops there with no entry *)
+            destruct sk as [s|]; [|rewrite prev_skip_none in Hres; injection Hres as <-; congruence].
+            destruct fuel as [|f]; [lia|]. cbn [prev_skip_loop] in Hres. rewrite Hbn in Hres. discriminate. }
+          destruct (Z.eq_dec (2 * g2) (qz p)) as [E|E].
+          + destruct md; [|nia]. assert (Z.of_nat (behind cur) <= Z.of_nat Bnd + 1) by lia. nia.
+          + assert (2 * g2 <= qz p - 1) by lia. assert (0 <= Z.of_nat (behind cur2) <= Z.of_nat Bnd + 1) by (destruct (lt_behind _ _ _ HL2); lia).
+            destruct md; nia. }
+      cbn [nu] in Hrec. destruct Hrec as [Hf [md6 [p6 [HL6 Hend6]]]]. split; [exact Hf|]. exists md6, p6. split; [exact HL6|].
+      assert (rank V O g2 = rank V O (nu p)) as Hrk.
+      { apply rank_invis; [lia|lia|lia|]. intros i Hi. apply Hinvis. lia. }
+      destruct Hend6 as [[A [B [C D]]]|[p' [A [B [C D]]]]]; [left; repeat split; auto; congruence|right; exists p'; repeat split; auto; congruence].
+Qed.
+
+(* ---------------------------------------------------------------- the simulation *)
+Definition PR (st : pstate S) (P : Z) : Prop :=
+  p_fail st = None /\ exists md p, LT (p_cur st) md p /\
+   ((p = LGap 0 /\ c_kv c (p_cur st) = None /\ P = -1 /\ p_skip st = None) \/
+    (exists j, p = LAt j /\ V (at_ O j) = true /\ P = rank V O j /\ p_skip st = Some (K j)) \/
+    (p = LGap n /\ c_kv c (p_cur st) = None /\ P = M)).
+
+Lemma rank_nM : rank V O n = M.
+Proof. apply rank_len. lia. Qed.
+Lemma rank_vis_lt j : 0 <= j < n -> V (at_ O j) = true -> rank V O j + 1 <= M.
+Proof.
+  intros Hj Hv. rewrite <- rank_nM. pose proof (rank_mono V O (j + 1) n ltac:(lia)) as Hm.
+  rewrite (rank_step V O j (at_ O j)) in Hm by (now apply ent_at). rewrite Hv in Hm. lia.
+Qed.
+
+(* at the end only late entries can still come *)
+Lemma next_endLT : forall m cur md sk, LT cur md (LGap n) -> (m > ahead cur)%nat ->
+  let st := p_next_loop c t m (mkP cur sk None) in
+  p_fail st = None /\ exists md', LT (p_cur st) md' (LGap n) /\ c_kv c (p_cur st) = None.
+Proof.
+  induction m as [|m IH]; intros cur md sk HL Hm; [lia|]. cbn zeta. cbn [p_next_loop p_cur p_skip p_fail].
+  destruct (lt_next _ _ _ HL) as [p' [HL' [Hn Hnn]]]. cbn [nxt] in Hn.
+  assert (p' = LGap n) as -> by (destruct Hn as [-> | ->]; [reflexivity|]; destruct (lt_at _ _ _ HL'); lia).
+  destruct (c_kv c (c_next c cur)) as [e|] eqn:Ekv.
+  - destruct (lt_gap _ _ _ HL') as [_ Hx]. rewrite Ekv in Hx. destruct Hx as [Hlate _].
+    assert (N.leb (ets e) t = false) as -> by (apply N.leb_gt; exact Hlate). cbn [andb].
+    apply (IH _ true sk HL'). destruct (lt_ahead _ _ _ HL) as [_ [H|H]]; [congruence|lia].
+  - cbn [p_cur p_fail]. split; [reflexivity|]. exists true. auto.
+Qed.
+
+Lemma scan_post_PR j st : 0 <= j <= n -> scan_postLT j st -> PR st (rank V O j).
+Proof.
+  intros Hj [Hf [md [p [HL Hend]]]]. split; [exact Hf|]. exists md, p. split; [exact HL|].
+  destruct Hend as [[j' [-> [Hjj [Hrk [Hv Hsk]]]]]|[-> [Hkv Hrk]]].
+  - right. left. exists j'. rewrite <- Hrk. auto.
+  - right. right. rewrite <- Hrk, rank_nM. auto.
+Qed.
+
+Theorem pruningLT_sim : sim (pruning c fuel t) PS PR.
+Proof.
+  pose proof (len_nonneg O) as Hn0. pose proof (len_nonneg PS) as HM0. pose proof fuel_inner as Hfi.
+  constructor.
+  - intros st P [_ [md [p [HL HR]]]]. destruct HR as [[_ [_ [-> _]]]|[[j [-> [Hv [-> _]]]]|[_ [_ ->]]]]; try lia.
+    destruct (lt_at _ _ _ HL) as [Hj _]. pose proof (rank_vis_lt j Hj Hv). pose proof (rank_range V O j). lia.
+  - intros st P [_ [md [p [HL HR]]]]. cbn [pruning c_kv].
+    destruct HR as [[_ [Hkv [-> _]]]|[[j [-> [Hv [-> _]]]]|[_ [Hkv ->]]]].
+    + rewrite Hkv. symmetry. apply ent_none. lia.
+    + destruct (lt_at _ _ _ HL) as [Hj Hkv]. rewrite Hkv. symmetry. unfold prune_spec. apply ent_filter_rank; [now apply ent_at|exact Hv].
+    + rewrite Hkv. symmetry. apply ent_none. lia.
+  - intros st P [H _]. exact H.
+  - intros o st P HR. pose proof HR as [Hf [md [p [HL HRc]]]]. destruct st as [cur sk f]. cbn [p_fail p_cur p_skip] in *. subst f.
+    destruct o; cbn [step pruning c_first c_last c_seek c_prev c_next ref]; rewrite pguard_ok by reflexivity.
+    + (* seek_to_first *)
+      unfold p_first_raw. cbn [p_cur p_fail]. destruct (lt_first _ _ _ HL) as [HL' Hkv]. split; [reflexivity|].
+      exists true, (LGap 0). cbn [p_cur p_skip]. split; [exact HL'|]. left. auto.
+    + (* seek_to_last *)
+      unfold p_last_raw. cbn [p_cur p_fail]. destruct (lt_last _ _ _ HL) as [HL' Hkv]. split; [reflexivity|].
+      exists false, (LGap n). cbn [p_cur p_skip]. split; [exact HL'|]. right. right. auto.
+    + (* seek *)
+      unfold p_seek_raw. cbn [p_cur p_fail]. destruct (lt_seek _ _ _ k HL) as [p' [HL' [Hnu Hnn]]].
+      pose proof (count_range (below k) O) as Hq. set (q := count (below k) O) in *.
+      assert (skip_inv t O q None) as Hinv.
+      { split; [discriminate|]. intros i Hi Hqn Hk _. exfalso.
+        pose proof (count_prefix _ O HsO (below_downclosed k) i _ (ent_at O i ltac:(lia))) as B1.
+        pose proof (count_prefix _ O HsO (below_downclosed k) q _ (ent_at O q ltac:(lia))) as B2.
+        fold q in B1, B2. unfold below in B1, B2. rewrite Hk in B1.
+        destruct (kltb (K q) k); [destruct B2 as [B2 _]; specialize (B2 eq_refl); lia|destruct B1 as [_ B1]; specialize (B1 ltac:(lia)); discriminate]. }
+      rewrite <- Hnu in Hinv.
+      assert ((fuel > ahead (c_seek c k cur))%nat \/ c_kv c (c_seek c k cur) = None) as Hm by (left; destruct (lt_ahead _ _ _ HL'); lia).
+      pose proof (seek_loopLT fuel _ _ _ None HL' Hinv Hm Hnn) as Hpost. rewrite Hnu in Hpost.
+      unfold prune_spec. rewrite (count_filter_prefix _ _ _ HsO (below_downclosed k)). fold q.
+      apply scan_post_PR; [lia|exact Hpost].
+    + (* prev *)
+      unfold p_prev_raw. cbn [p_cur p_skip p_fail].
+      assert (Z.of_nat fuel > Wz cur md p) as HW.
+      { unfold Wz. pose proof (lt_range _ _ _ HL). assert (0 <= qz p <= 2 * n + 1) by (destruct p; cbn [qz nu] in *; [destruct (lt_at _ _ _ HL)|]; lia).
+        assert (0 <= Z.of_nat (behind cur) <= Z.of_nat Bnd + 1) by (destruct (lt_behind _ _ _ HL); lia). destruct md; nia. }
+      destruct HRc as [[-> [Hkv [-> ->]]]|[[j [-> [Hv [-> ->]]]]|[-> [Hkv ->]]]].
+      * unfold has_key. rewrite Hkv.
+        pose proof (prev_loopLT fuel cur md (LGap 0) None HL ltac:(left; auto) HW) as [Hf' [md' [p' [HL' Hend]]]]. cbn [nu] in Hend.
+        split; [exact Hf'|]. exists md', p'. split; [exact HL'|].
+        destruct Hend as [[-> [A [B _]]]|[p2 [-> [Hv2 [_ Hrk]]]]]; [left; auto|exfalso].
+        destruct (lt_at _ _ _ HL') as [Hp2 _]. rewrite (rank_step V O p2 (at_ O p2)) in Hrk by (now apply ent_at). rewrite Hv2, rank_0 in Hrk.
+        pose proof (rank_range V O p2). lia.
+      * destruct (lt_at _ _ _ HL) as [Hj Hkv]. unfold has_key. rewrite Hkv.
+        assert (prev_invLT cur md (LAt j) (Some (K j))) as Hinv.
+        { right. left. exists j. split; [reflexivity|]. split; [reflexivity|]. intros i Hi Hk.
+          apply (head_earlier_invisible 0%nat t O HsO j i); auto; try lia. now apply (visible_head 0%nat t O HsO). }
+        pose proof (prev_loopLT fuel cur md (LAt j) _ HL Hinv HW) as [Hf' [md' [p' [HL' Hend]]]]. cbn [nu] in Hend.
+        split; [exact Hf'|]. exists md', p'. split; [exact HL'|]. pose proof (rank_range V O j). unfold ref_prev.
+        destruct Hend as [[-> [A [B Hrk]]]|[p2 [-> [Hv2 [Hsk Hrk]]]]].
+        -- left. rewrite rank_0 in Hrk. rewrite <- Hrk. cbn. auto.
+        -- right. left. exists p2. destruct (lt_at _ _ _ HL') as [Hp2 _].
+           rewrite (rank_step V O p2 (at_ O p2)) in Hrk by (now apply ent_at). rewrite Hv2 in Hrk. pose proof (rank_range V O p2).
+           destruct (Z.ltb_spec (rank V O j - 1) 0); [lia|]. repeat split; auto. lia.
+      * unfold has_key. rewrite Hkv.
+        pose proof (prev_loopLT fuel cur md (LGap n) None HL ltac:(left; auto) HW) as [Hf' [md' [p' [HL' Hend]]]]. cbn [nu] in Hend.
+        split; [exact Hf'|]. exists md', p'. split; [exact HL'|]. rewrite rank_nM in Hend. unfold ref_prev.
+        destruct Hend as [[-> [A [B Hrk]]]|[p2 [-> [Hv2 [Hsk Hrk]]]]].
+        -- left. rewrite rank_0 in Hrk. rewrite <- Hrk. cbn. auto.
+        -- right. left. exists p2. destruct (lt_at _ _ _ HL') as [Hp2 _].
+           rewrite (rank_step V O p2 (at_ O p2)) in Hrk by (now apply ent_at). rewrite Hv2 in Hrk. pose proof (rank_range V O p2).
+           destruct (Z.ltb_spec (M - 1) 0); [lia|]. repeat split; auto. lia.
+    + (* next *)
+      unfold p_next_raw. cbn [p_cur p_skip p_fail]. unfold ref_next.
+      assert ((fuel > ahead cur)%nat) as Hm by (destruct (lt_ahead _ _ _ HL); lia).
+      destruct HRc as [[-> [Hkv [-> ->]]]|[[j [-> [Hv [-> ->]]]]|[-> [Hkv ->]]]].
+      * pose proof (next_loopLT fuel cur md (LGap 0) None HL (skip_inv_none 0%nat t O 0 ltac:(lia)) Hm) as Hpost. cbn [nu_next] in Hpost.
+        apply (scan_post_PR 0 _ ltac:(lia)) in Hpost. rewrite rank_0 in Hpost.
+        destruct (Z.leb_spec M (-1 + 1)); [|exact Hpost]. replace M with 0 by lia. exact Hpost.
+      * destruct (lt_at _ _ _ HL) as [Hj Hkv].
+        assert (skip_inv t O (j + 1) (Some (K j))) as Hinv.
+        { split.
+          - intros k Hk. injection Hk as <-. exists j. split; [lia|]. split; [reflexivity|]. now apply at_old.
+          - intros i Hi Hpn Hk _. f_equal. rewrite <- Hk. apply (sandwich 0%nat O HsO i j (j + 1)); try lia. exact Hk. }
+        pose proof (next_loopLT fuel cur md (LAt j) _ HL Hinv Hm) as Hpost. cbn [nu_next] in Hpost.
+        apply (scan_post_PR (j + 1) _ ltac:(lia)) in Hpost.
+        rewrite (rank_step V O j (at_ O j)) in Hpost by (now apply ent_at). rewrite Hv in Hpost.
+        pose proof (rank_vis_lt j Hj Hv).
+        destruct (Z.leb_spec M (rank V O j + 1)); [|exact Hpost].
+        replace M with (rank V O j + 1) by lia. exact Hpost.
+      * destruct (next_endLT fuel cur md sk HL Hm) as [Hf' [md' [HL' Hkv']]]. split; [exact Hf'|].
+        exists md', (LGap n). split; [exact HL'|]. right. right. split; [reflexivity|]. split; [exact Hkv'|].
+        destruct (Z.leb_spec M (M + 1)); lia.
 Qed.
 End LT.
